@@ -741,11 +741,21 @@ class Interp:
                 self.block(st.finalbody, env)
 
     def st_With(self, st, env):
+        exits = []
         for item in st.items:
             v = self.ev(item.context_expr, env)
+            # a stand-in that models the context-manager protocol (a pool that is terminated on exit ...) gets it; others bind themselves
+            if isinstance(v, Record) and "__exit__" in v.native_methods:
+                exits.append(v)
+                if "__enter__" in v.native_methods:
+                    v = self.call(v.native_methods["__enter__"], ())
             if item.optional_vars is not None:
                 self.assign(item.optional_vars, v, env)
-        self.block(st.body, env)
+        try:
+            self.block(st.body, env)
+        finally:
+            for v in reversed(exits):
+                self.call(v.native_methods["__exit__"], (None, None, None))
 
     def st_Assign(self, st, env):
         v = self.ev(st.value, env)
